@@ -28,10 +28,15 @@ def codeOf (t : ErrTable) (name : Name) : Option Nat := dictGet name (codesDict 
 
 def strName (s : String) : Name := s.toList.map Char.toNat
 
+/-- "success" -/
+def successName : Name := [115, 117, 99, 99, 101, 115, 115]
+/-- "unknown error" -/
+def unknownName : Name := [117, 110, 107, 110, 111, 119, 110, 32, 101, 114, 114, 111, 114]
+
 /-- `Result.name()` -/
 def Result.name (t : ErrTable) (code : Nat) : Name :=
-  if Result.isSuccess code then strName "success"
-  else (nameOf t (Result.key code)).getD (strName "unknown error")
+  if Result.isSuccess code then successName
+  else (nameOf t (Result.key code)).getD unknownName
 
 /-- `Result.error(name)`: `KeyError` for an unknown name -/
 def Result.errorNamed (t : ErrTable) (name : Name) : Except Err Nat :=
@@ -53,7 +58,7 @@ def nodupB {α : Type} [BEq α] : List α → Bool
 `Result.name()` also uses for something else -/
 def checkTable (t : ErrTable) : Bool :=
   nodupB (t.map (·.1)) && nodupB (t.map (·.2)) && t.all (fun e => decide (e.1 < errorMask)) &&
-  notIn (strName "success") (t.map (·.2)) && notIn (strName "unknown error") (t.map (·.2))
+  notIn successName (t.map (·.2)) && notIn unknownName (t.map (·.2))
 
 /-- first pair of entries (indices) sharing a code or a name — failing-input search -/
 def firstDup {α : Type} [BEq α] (l : List α) : Option (Nat × Nat) :=
@@ -63,5 +68,76 @@ def firstDup {α : Type} [BEq α] (l : List α) : Option (Nat × Nat) :=
       | some j => some (i, i + 1 + j)
       | none => go (i + 1) r
   go 0 l
+
+end Nx.Nex
+
+namespace Nx.Nex
+
+/-- the two dicts are inverse bijections between exactly the table's codes and names, and
+`Result` maps between them through the error bit -/
+def TableBijective (t : ErrTable) : Prop :=
+  (∀ c n, nameOf t c = some n ↔ (c, n) ∈ t) ∧
+  (∀ c n, codeOf t n = some c ↔ (c, n) ∈ t) ∧
+  (∀ c n, (c, n) ∈ t → c < errorMask ∧ Result.name t (Result.mkError c) = n ∧
+     Result.errorNamed t n = .ok (Result.mkError c)) ∧
+  (∀ c, (c, successName) ∉ t ∧ (c, unknownName) ∉ t)
+
+end Nx.Nex
+
+namespace Nx.Nex
+
+/-! ## Nat-coded names for the generated table (kernel evaluation is fast on `Nat` literals)
+
+A name `[d₀, d₁, …]` is coded as `Σ (dᵢ + 1) · B^i`, `B = 0x110001`. The generated file gives
+`codes` and `keys` as literal lists; `names = keys.map (decodeName fuel)` and the obligation
+`names.map encodeName = keys` shows that the keys are codes of exactly these names. -/
+
+def nameBase : Nat := 1114113
+
+def encodeName : Name → Nat
+  | [] => 0
+  | d :: r => d + 1 + nameBase * encodeName r
+
+def decodeName : Nat → Nat → Name
+  | 0, _ => []
+  | f + 1, k => if k = 0 then [] else (k % nameBase - 1) :: decodeName f (k / nameBase)
+
+def notInN (x : Nat) : List Nat → Bool
+  | [] => true
+  | y :: r => !(Nat.beq y x) && notInN x r
+
+def nodupN : List Nat → Bool
+  | [] => true
+  | x :: r => notInN x r && nodupN r
+
+def sortedN : List Nat → Bool
+  | x :: y :: r => Nat.blt x y && sortedN (y :: r)
+  | _ => true
+
+def eqN : List Nat → List Nat → Bool
+  | [], [] => true
+  | a :: r, b :: s => Nat.beq a b && eqN r s
+  | _, _ => false
+
+def allBelowN (bound : Nat) : List Nat → Bool
+  | [] => true
+  | x :: r => Nat.blt x bound && allBelowN bound r
+
+def subsetN (a b : List Nat) : Bool := match a with
+  | [] => true
+  | x :: r => !(notInN x b) && subsetN r b
+
+def pairKeys : List Nat → List Nat → List Nat
+  | k :: ks, c :: cs => (k * 4294967296 + c) :: pairKeys ks cs
+  | _, _ => []
+
+/-- when `error_codes` is written out as a literal dict `(ckeys, ccodes)`: no repeated name and exactly
+the swapped pairs of the names table `(codes, keys)` (codes below 2^32) -/
+def checkInverseN (codes keys ckeys ccodes : List Nat) : Bool :=
+  nodupN ckeys && Nat.beq ckeys.length ccodes.length && allBelowN 4294967296 ccodes &&
+  subsetN (pairKeys keys codes) (pairKeys ckeys ccodes) && subsetN (pairKeys ckeys ccodes) (pairKeys keys codes)
+
+def genNames (fuel : Nat) (keys : List Nat) : List Name := keys.map (decodeName fuel)
+def genTable (fuel : Nat) (codes keys : List Nat) : ErrTable := codes.zip (genNames fuel keys)
 
 end Nx.Nex
